@@ -35,7 +35,7 @@ RULE = ("one case = one (dataset, scheme) pair run through up to 8 configuration
 EXHAUSTIVE = {"quick": False, "thorough": False}
 SCOPE = {"quick": "701 datasets (n<=3,m<=2) x 4 schemes (stand-in configurations) + 72 mixed-name cases + 2500 sampled "
                   "(dataset n<=6, scheme) pairs, 500 of them also through CBC (ExactPulp + 2 selector configurations); all-optima sets n<=5",
-         "thorough": "701 datasets x 25 schemes + 72 mixed-name cases + 25000 sampled pairs n<=6 (5000 through CBC) + 400 "
+         "thorough": "701 datasets x 25 schemes + 72 mixed-name cases + 40000 sampled pairs n<=6 (8000 through CBC) + 400 "
                      "pairs with n in 7..8 (optimum by subset DP, one ranking requested); all-optima sets n<=5"}
 CHUNK = 4
 TIMEOUT = 600
@@ -181,7 +181,7 @@ def gen_cases(tier, seed):
             D.scale(D.GENERIC_B, 1. / 16384)]
     pool = D.PRESETS + D.BOUNDARY + [D.GENERIC_B, D.GENERIC_C, D.scale(D.unifying(), 2.), D.scale(D.pseudo(), .25)]
     sizes = [2, 3, 3, 3] + [4] * 8 + [5] * 5 + [6] * 4
-    n_main = 2500 if quick else 25000
+    n_main = 2500 if quick else 40000
     n_big = 0 if quick else 400
     for i in range(n_main + n_big):
         big = i >= n_main
